@@ -36,6 +36,7 @@ func genAnimParams(r *RNG, lossless bool, mixedPct int, alphaPct int, tier strin
 	}
 	p.Parallel = r.Bool()
 	p.Spec.Reuse = r.Pct(25)
+	// ReuseRGBA is not drawn yet: see DESIGN.md section 11 (unclassified C18 report)
 	return p
 }
 
